@@ -110,7 +110,22 @@ func aimedAMs(caps amCaps) []*amSchema {
 				opts.Fields = append(opts.Fields, fld("mode", false, withDefault(rf("Mode"), "manual")))
 			}
 		}
-		out = append(out, mk(mode, &amObject{"Options", opts}))
+		objs := []*amObject{mode, {"Options", opts}}
+		if caps.StructDefaults {
+			// struct default with partial, zero-valued overrides of fields that have their own defaults
+			view := &amObject{"View", st(
+				fld("show", true, withDefault(ty("bool"), true)),
+				fld("title", true, withDefault(ty("string"), "untitled")),
+				fld("rows", true, withDefault(tyw("int", intW), num(3))),
+				fld("note", false, ty("string")),
+			)}
+			objs = append(objs, view)
+			opts.Fields = append(opts.Fields,
+				fld("view", true, withDefault(rf("View"), map[string]any{"show": false, "title": "", "rows": num(0)})),
+				fld("otherView", false, withDefault(rf("View"), map[string]any{"show": true, "title": "custom", "rows": num(9)})),
+			)
+		}
+		out = append(out, mk(objs...))
 	}
 	return out
 }
